@@ -284,6 +284,15 @@ def run(ctx):
         script, expect = gen_history(rng, f, 1, ty, loss[ty], 0, 0, "fd", special="trunc_tail")
         jobs.append((f, 1, ty, "fd", script, expect))
     out = ctx.batch([("%s-%d" % (j[0].name, i), j[4]) for i, j in enumerate(jobs)], clean=True)
+    # THE PREDICATE: Sf.Abs.check (lean/SfModel/Abs.lean, the abstract file of the statement in Lean) judges every history from the
+    # closed empty store on; the generator's own expectations (AbsFile above) run beside it as a cross-check
+    from .. import abslean
+    judge = abslean.Judge(ctx)
+    for i, (f, ch, ty, route, script, expect) in enumerate(jobs):
+        name = "%s-%d" % (f.name, i)
+        judge.add(name, abslean.geom_line(ch, 0, "w", trunc=(route != "vio"), strict=True, lossless=[ty]), {}, None,
+                  abslean._alive_pairs(script.strip().split("\n"), out.get(name, []), 0))
+    verdicts = judge.run()
     reported = set()
     skipped = 0
     kf_hits = {}
@@ -316,6 +325,24 @@ def run(ctx):
                 break
         else:
             ctx.distinct.add("rdwr:" + f.name)
+        # the Lean verdict decides; the generator's expectation can only add to it (and every difference is counted)
+        v = verdicts["%s-%d" % (f.name, i)]
+        pyprob = prob
+        lean_first = v.first()
+        py_skip = any(chk is not None and k < len(lines) and chk(lines[k]) == "SKIP" for k, chk in enumerate(expect[:2]))
+        same = (v.status == "skip") == py_skip and ((lean_first is None) == (pyprob is None)) and (lean_first is None or pyprob is None or lean_first[0] == pyprob[0])
+        if not same:
+            judge.disagreement("%s-%d" % (f.name, i), [v.status] + [list(x) for x in v.fails[:2]], list(pyprob) if pyprob else None)
+        leantag = None
+        if lean_first is not None:
+            k, leantag, text = lean_first
+            prob = (k, "Lean predicate Sf.Abs.check: clause `%s` fails: %s%s" % (leantag, text.strip(), (" | generator's expectation: " + pyprob[1]) if pyprob and pyprob[0] == k else ""))
+        elif pyprob is not None:
+            prob = (pyprob[0], "generator's expectation only (Sf.Abs.check accepted the history): " + pyprob[1])
+        if prob and f.major == 0x08 and leantag is not None and kf_still.get("KF-VOC-RDWR-TRUNCATE") and any(l.startswith("cmd ") and " 1080 " in l for l in sl[:prob[0] + 1]) \
+                and (leantag in ("open", "reopen-frames") or (sl[prob[0]].startswith("r ") and prob[0] == len(sl) - 2)):
+            kf_hits["KF-VOC-RDWR-TRUNCATE"] = kf_hits.get("KF-VOC-RDWR-TRUNCATE", 0) + 1
+            prob = None      # class: VOC + truncate in the history; signature (Lean clause): the next open fails / reports the old count / reads the old data
         if prob and f.major == 0x08 and kf_still.get("KF-VOC-RDWR-TRUNCATE") and any(l.startswith("cmd ") and " 1080 " in l for l in sl[:prob[0] + 1]) \
                 and ("open for r failed" in prob[1] or "open (r" in prob[1] or "open (rw" in prob[1] or "a fresh open reads" in prob[1] or "open for rw failed" in prob[1]):
             kf_hits["KF-VOC-RDWR-TRUNCATE"] = kf_hits.get("KF-VOC-RDWR-TRUNCATE", 0) + 1
